@@ -70,6 +70,32 @@ func familyOfPrefix(prefixVar string) string {
 	return n
 }
 
+// accessorValueType: the named type of the entries an accessor stores (last parameter of a Set) or hands back (first result of a Get).
+func accessorValueType(a *aolAccessor) string {
+	var t types.Type
+	sig := a.Fn.Signature
+	switch a.Op {
+	case "Set":
+		if n := sig.Params().Len(); n > 0 {
+			t = sig.Params().At(n - 1).Type()
+		}
+	case "Get":
+		if sig.Results().Len() > 0 {
+			t = sig.Results().At(0).Type()
+		}
+	}
+	if t == nil {
+		return ""
+	}
+	if pt, ok := t.(*types.Pointer); ok {
+		t = pt.Elem()
+	}
+	if n, ok := t.(*types.Named); ok {
+		return n.Obj().Name()
+	}
+	return ""
+}
+
 // extraFamilies: the families of the model beyond the four core ones, sorted.
 func (m *aolModel) extraFamilies() []string {
 	var out []string
@@ -130,22 +156,64 @@ func buildAolModel(p *Prog) *aolModel {
 	// a family is a prefix variable (TopicKeyPrefix → Topic, TopicMetaKeyPrefix → TopicMeta): every accessor under one prefix uses
 	// one key type; the four families the properties talk about use their own <Family>CompositeKey. Further families (a feature's
 	// own prefix) are modelled the same way and are "extra": the append-only / authorization / counter rules do not constrain them.
-	keyTypeOf := map[string]string{}
+	// key type and value type per prefix variable
+	keyTypeOfPrefix, valTypeOfPrefix := map[string]string{}, map[string]string{}
 	for _, a := range m.acc {
-		fam := familyOfPrefix(a.Prefix)
 		if a.KeyType != "" {
-			if prev, ok := keyTypeOf[fam]; ok && prev != a.KeyType {
-				m.problems = append(m.problems, fmt.Sprintf("family %s (prefix %s) is accessed with two key types: %s and %s in %s", fam, a.Prefix, prev, a.KeyType, FuncName(a.Fn)))
+			if prev, ok := keyTypeOfPrefix[a.Prefix]; ok && prev != a.KeyType {
+				m.problems = append(m.problems, fmt.Sprintf("prefix %s is accessed with two key types: %s and %s in %s", a.Prefix, prev, a.KeyType, FuncName(a.Fn)))
 			}
-			keyTypeOf[fam] = a.KeyType
-			if isCoreAolFamily(fam) && familyOfKeyType(a.KeyType) != fam {
-				m.problems = append(m.problems, fmt.Sprintf("%s uses key type %s under prefix %s, which belongs to family %s",
-					FuncName(a.Fn), a.KeyType, a.Prefix, fam))
+			keyTypeOfPrefix[a.Prefix] = a.KeyType
+		}
+		if vt := accessorValueType(a); vt != "" {
+			a.ValType = vt
+			valTypeOfPrefix[a.Prefix] = vt
+		}
+	}
+	// a core family is the prefix whose key type is <Family>CompositeKey — whatever the prefix variable is called; when a further
+	// family reuses that key type under its own prefix, the core one is the prefix whose entries are of type <Family>
+	famOf := map[string]string{}
+	for _, x := range coreAolFamilies {
+		var cands []string
+		for pr, kt := range keyTypeOfPrefix {
+			if familyOfKeyType(kt) == x {
+				cands = append(cands, pr)
 			}
-			// a core key type under another family's prefix would let one family's guard vouch for another family's entry
-			if kf := familyOfKeyType(a.KeyType); isCoreAolFamily(kf) && isCoreAolFamily(fam) && kf != fam {
-				m.problems = append(m.problems, fmt.Sprintf("prefix %s is shared by key types %s and %s", a.Prefix, kf, fam))
+		}
+		sort.Strings(cands)
+		switch {
+		case len(cands) == 1:
+			famOf[cands[0]] = x
+		case len(cands) > 1:
+			n := 0
+			for _, pr := range cands {
+				if valTypeOfPrefix[pr] == x {
+					famOf[pr] = x
+					n++
+				}
 			}
+			if n != 1 {
+				m.problems = append(m.problems, fmt.Sprintf("key type %sCompositeKey is used under %d prefixes (%s) and %d of them hold %s entries: the %s family cannot be told apart", x, len(cands), strings.Join(cands, ", "), n, x, x))
+			}
+		}
+	}
+	used := map[string]bool{}
+	for _, f := range famOf {
+		used[f] = true
+	}
+	for _, a := range m.acc {
+		fam, ok := famOf[a.Prefix]
+		if !ok {
+			fam = valTypeOfPrefix[a.Prefix]
+			if fam == "" || used[fam] || isCoreAolFamily(fam) {
+				fam = familyOfPrefix(a.Prefix)
+			}
+			if isCoreAolFamily(fam) {
+				fam = fam + "@" + familyOfPrefix(a.Prefix) // never let a further family take a core family's name
+			}
+		}
+		if a.KeyType != "" && isCoreAolFamily(fam) && familyOfKeyType(a.KeyType) != fam {
+			m.problems = append(m.problems, fmt.Sprintf("%s uses key type %s under prefix %s, which belongs to family %s", FuncName(a.Fn), a.KeyType, a.Prefix, fam))
 		}
 		a.Family = fam
 		if prev, ok := m.prefixOf[fam]; ok && prev != a.Prefix {
